@@ -70,7 +70,14 @@ ssize_t read(int fd, void *buf, size_t n) {
     }
     /* destination is (usually) a heap object of symbolic size: one array operation (CBMC's memcpy) keeps its update
      * chain short; a byte loop here made read_lead cost 25 M SAT variables instead of 1.6 M (measured) */
+#ifdef V_READ_LOOP
+    /* concrete-shape harnesses: a byte loop keeps constant file bytes constant for the reader's control flow (the built-in memcpy
+     * is an opaque array operation until the solver runs) */
+    { unsigned char *d = buf;
+      for(size_t i = 0; i < IO_MAX; i++) if(i < cnt) d[i] = k == 0 ? vf_data0[p + i] : k == 1 ? vf_data1[p + i] : vf_data2[p + i]; }
+#else
     if(cnt > 0) { if(k == 0) memcpy(buf, &vf_data0[p], cnt); else if(k == 1) memcpy(buf, &vf_data1[p], cnt); else memcpy(buf, &vf_data2[p], cnt); }
+#endif
     vf_pos[k] = (long)(p + cnt);
     return (ssize_t)cnt;
 }
@@ -143,11 +150,13 @@ int ftruncate(int fd, off_t len) {
 
 /* temp file: an arbitrary free descriptor number, including 0; backed by file slot 2 */
 int vf_tmp_fd_choice = -2;
+int vf_tmp_fd_fixed = -1;
 int mkstemp(char *tmpl) {
     (void)tmpl;
     if(vf_open[2]) { errno = EMFILE; return -1; }
     int fd = nondet_int();
     __CPROVER_assume(fd >= 0 && fd <= 9);
+    if(vf_tmp_fd_fixed >= 0) fd = vf_tmp_fd_fixed;       /* concrete-shape harnesses fix the descriptor number per instance */
     __CPROVER_assume(!(vf_open[0] && vf_fd[0] == fd) && !(vf_open[1] && vf_fd[1] == fd));
     vf_tmp_fd_choice = fd;
     vf_open[2] = 1; vf_fd[2] = fd; vf_size[2] = 0; vf_pos[2] = 0;
